@@ -252,6 +252,27 @@ func grammarFrames() []frameSpec {
 		b := b
 		add(fmt.Sprintf("raw-%d-len%d", b[0], len(b)), b, true, wantEcho(b), anyT)
 	}
+	// size ladder: complete, well-formed requests whose frame body is large but within the 16 MiB limit (sign request with
+	// long data, raw-forwarded request, add-identity with a long comment)
+	{
+		probe := canon(func(a agent.ExtendedAgent) { a.Sign(k1, nil) })
+		for _, L := range []int{64 << 10, 256 << 10, 256<<10 + 1, 1 << 20, 4 << 20, 16 << 20} {
+			L := L
+			data := bytes.Repeat([]byte{0xa5}, L-len(probe))
+			body := canon(func(a agent.ExtendedAgent) { a.Sign(k1, data) })
+			if len(body) != L {
+				panic(fmt.Sprintf("harness: sign frame of %d bytes, wanted %d", len(body), L))
+			}
+			add(fmt.Sprintf("sign-k1-body%d", L), body, true, wantFirst(14), firstByte(5, 14))
+		}
+		for _, L := range []int{256<<10 + 1, 16 << 20} {
+			b := cat([]byte{0xcb}, bytes.Repeat([]byte{2}, L-1))
+			add(fmt.Sprintf("raw-203-len%d", L), b, true, wantEcho(b), anyT)
+		}
+		add("add-ed25519-comment1MiB", canon(func(a agent.ExtendedAgent) {
+			a.Add(agent.AddedKey{PrivateKey: fK3, Comment: string(bytes.Repeat([]byte("c"), 1<<20))})
+		}), true, wantFirst(6), firstByte(5, 6))
+	}
 	add("smartcard-add", cat([]byte{20}, str([]byte("reader")), str([]byte("1234"))), true, wantFirst(5), firstByte(5, 6))
 	add("smartcard-add-constrained", cat([]byte{26}, str([]byte("reader")), str([]byte("1234")), []byte{1, 0, 0, 0, 9}), true, wantFirst(5), firstByte(5, 6))
 	add("smartcard-remove", cat([]byte{21}, str([]byte("reader")), str([]byte("1234"))), true, wantFirst(5), firstByte(5, 6))
